@@ -2,7 +2,8 @@
 from ..poly import Poly
 from ..interp import Arr, Pose, Obj, ClassRef, sym_pose, PathRaise
 from ..algebra import run_obligation, run_tasks, record, ObFail, CDIM
-from ..g2o import (same_vertex, same_edge, same_param, build_vertex, build_odometry, build_landmark, build_param, expect_str)
+from ..g2o import (same_vertex, same_edge, same_param, build_vertex, build_odometry, build_landmark, build_param, expect_str,
+                   no_int_through_float, mark_int)
 
 LEVEL = "other"
 
@@ -22,6 +23,7 @@ def read_line(it, line, params=None, expect=None):
             line.split(" ")[0], len(got), ", ".join(c for c, _ in got)))
     if expect is not None and got[0][0] != expect:
         raise ObFail("the line `%s...` is read by %s, expected %s" % (line.split(" ")[0], got[0][0], expect))
+    no_int_through_float(it)
     return got[0]
 
 
@@ -132,6 +134,7 @@ def graph_roundtrip(cycles):
             same_vertex(it, a, b, "vertex #%d of the graph after %d export/import cycle(s)" % (k, cycles))
         for k, (a, b) in enumerate(zip(e2, edges)):
             same_edge(it, a, b, "edge #%d of the graph after %d export/import cycle(s)" % (k, cycles))
+        no_int_through_float(it)
         pr = cur.fields.get("_g2o_params")
         if not isinstance(pr, dict) or len(pr) != 2:
             raise ObFail("offset parameters are not all read back (%r)" % (pr,))
